@@ -437,11 +437,58 @@ func c02Randomized(nSeeds int) *explore.Scenario {
 	}
 }
 
+// c02AfterHRR: the SECOND ClientHello (after a HelloRetryRequest, with and without a cookie)
+// must be syntactically valid too.
+func c02AfterHRR() *explore.Scenario {
+	clients := c17Clients(2)
+	return &explore.Scenario{
+		Name: "second-hello-after-hrr",
+		Run: func(x *explore.X) (r explore.Result) {
+			g := clients[x.Choose("client", len(clients))]
+			cookie := cookieMenu[x.Choose("cookie", 3)]
+			h0, err := g.probeHello()
+			if err != nil {
+				r.Obs = "no-hello"
+				return
+			}
+			o := offerOf(h0)
+			var grp uint16
+			for _, c := range []uint16{24, 23, 25, 29} {
+				if has16(o.groups, c) && !has16(o.shares, c) {
+					grp = c
+					break
+				}
+			}
+			if grp == 0 || !has16(o.versions, tls.VersionTLS13) {
+				r.Obs = "no-hrr-possible"
+				return
+			}
+			msgs, hs := secondHelloAfterHRR(g, grp, cookie)
+			if hs == nil || len(msgs) < 2 {
+				r.Obs = "no-second-hello"
+				return
+			}
+			if hs.CPanic != "" {
+				r.Violate("C02|after-hrr|panic", "%s: %s", g.Name, truncStr(hs.CPanic, 200))
+				return
+			}
+			if _, err := wire.CheckAll(msgs[1]); err != nil {
+				r.Violate("C02|after-hrr|grammar|"+errClass(err), "%s cookie=%dB: second ClientHello malformed: %v", g.Name, len(cookie), err)
+			}
+			r.Count("valid_hellos", 1)
+			r.Obs = fmt.Sprintf("second-hello|viol=%d", len(r.Viol))
+			r.Nontrivial = true
+			r.Class = fmt.Sprintf("%s|%d", g.Name, len(cookie))
+			return
+		},
+	}
+}
+
 func c02Scenarios(thorough bool) []*explore.Scenario {
 	if thorough {
-		return []*explore.Scenario{c02IDs(2), c02Custom(true, 1), c02OverLimit(), c02Fingerprint(true), c02GreaseECHLen(300), c02Randomized(2048)}
+		return []*explore.Scenario{c02IDs(2), c02Custom(true, 1), c02OverLimit(), c02Fingerprint(true), c02GreaseECHLen(300), c02Randomized(2048), c02AfterHRR()}
 	}
-	return []*explore.Scenario{c02IDs(1), c02Custom(false, 1), c02OverLimit(), c02Fingerprint(false), c02GreaseECHLen(300), c02Randomized(128)}
+	return []*explore.Scenario{c02IDs(1), c02Custom(false, 1), c02OverLimit(), c02Fingerprint(false), c02GreaseECHLen(300), c02Randomized(128), c02AfterHRR()}
 }
 
 func init() {
